@@ -75,8 +75,9 @@ def c_from_bytes(it, recv, a):
     # the scalar table: EVERY serialized scalar goes through the canonical decoder; a non-canonical one is Err(BlsScalarMalformed)
     from vlib.ring import VErr
     circ = "circuit(inflated(inflate(compressed, packed_size_limit(max_constraints))), max_constraints)"
-    it.ctx.event("for_each_in_order", circ + ".scalars", (),
-                 (("try", "BlsScalar::from_bytes(" + circ + ".scalars[*]) is None => Err(Error::BlsScalarMalformed)"),))
+    # (one early exit: the first scalar, in table order, that the canonical decoder refuses - the normal form shared by the loop-with-`?`
+    # and the `collect::<Result<..>>()?` spellings)
+    X.append(("try", "collected(map_each(" + circ + ".scalars, BlsScalar::from_bytes(" + circ + ".scalars[*]) is None => Err(Error::BlsScalarMalformed)))"))
     sub_log, sub_exits = [], []
     row, i = Sym("circuit(inflated(inflate(compressed, packed_size_limit(max_constraints))), max_constraints).constraints[*]"), Sym("circuit(inflated(inflate(compressed, packed_size_limit(max_constraints))), max_constraints).constraints[#]")
     poly = VOpaque("get", [Sym("circuit(inflated(inflate(compressed, packed_size_limit(max_constraints))), max_constraints).polynomials"), Sym(canon(row) + ".polynomial")])
